@@ -80,7 +80,7 @@ def dispatch (line : String) : String :=
     | "typed" => C17.typedOp args
     | "build" => C17.buildOp args
     | "hdrs" => C02.hdrsOp args
-    | "crlf" => C10.simpleOp LV.BodyEnc.crlfNormalize "crlf" args
+    | "crlf" => C10.crlfOp args
     | "qp" => C10.qpOp args
     | "b64" => C10.b64Op args
     | "sendmsg" => C18.sendmsgOp args
